@@ -11,7 +11,8 @@ mutual
     | .str, .str => true
     | .func i, .func j => i == j
     | .cls i, .cls j => i == j
-    | .inst i, .inst j => i == j
+    | .inst i vs, .inst j ss => i == j && coversList vs ss
+    | .bound r c m, .bound r' c' m' => covers r r' && c == c' && m == m'
     | .tuple vs, .tuple ss => coversList vs ss
     | _, _ => false
   def coversList : List Val → List (List Shape) → Bool
@@ -28,14 +29,17 @@ creating statement -/
 inductive Top where
   | int | str | tuple
   | func (id : Nat) | cls (id : Nat) | inst (id : Nat)
+  | meth (cid : Nat) (m : Nat)
 deriving DecidableEq, Repr
 
 def Val.top : Val → Top
   | .int => .int | .str => .str | .tuple _ => .tuple
-  | .func i => .func i | .cls i => .cls i | .inst i => .inst i
+  | .func i => .func i | .cls i => .cls i | .inst i _ => .inst i
+  | .bound _ c m => .meth c m
 
 def Shape.top : Shape → Top
   | .int => .int | .str => .str | .tuple _ => .tuple
-  | .func i => .func i | .cls i => .cls i | .inst i => .inst i
+  | .func i => .func i | .cls i => .cls i | .inst i _ => .inst i
+  | .bound _ c m => .meth c m
 
 end JediModel.PyCore
